@@ -10,10 +10,21 @@ using PIO = PayloadIO<Payload>;
 
 // issue a request of kind kk through any control / instance exposing the request API
 template <typename C>
-static inline void issueReq(C& c, int kk, int dest, int id) {
+static inline void issueReq(C& c, int kk, int dest, int id, bool noPayload = false) {
 	const hfsm2::StateID d = (hfsm2::StateID)dest;
 #ifndef VH_NO_PAYLOAD
 	const Payload pl = PIO::make(id);
+	if (noPayload) switch (kk) {
+		case 0: c.changeTo(d); return;
+		case 1: c.restart(d); return;
+		case 2: c.resume(d); return;
+		case 3: c.select(d); return;
+#ifdef HFSM2_ENABLE_UTILITY_THEORY
+		case 4: c.utilize(d); return;
+		case 5: c.randomize(d); return;
+#endif
+		default: c.schedule(d); return;
+	}
 	switch (kk) {
 		case 0: c.changeWith(d, pl); break;
 		case 1: c.restartWith(d, pl); break;
@@ -155,7 +166,7 @@ struct Node : Base {
 			for (int s = 0; s < p.sh->nStates; ++s) { e.push_back(c.isPendingEnter((hfsm2::StateID)s) ? '1' : '0'); x.push_back(c.isPendingExit((hfsm2::StateID)s) ? '1' : '0'); g.push_back(c.isPendingChange((hfsm2::StateID)s) ? '1' : '0'); }
 			L.tag('p'); L.s(e); L.s(x); L.s(g); L.nl();
 		}
-		if (issue) { L.tag('q'); L.i(kk); L.i(dest); L.i(id); L.i(ID); L.nl(); issueReq(c, kk, dest, id); }
+		if (issue) { const bool np = false; /* substitutes always carry an id: rounds stay distinguishable */ L.tag('q'); L.i(kk); L.i(dest); L.i(id); L.i(ID); L.i(np); L.nl(); issueReq(c, kk, dest, id, np); }
 		if (cancel) c.cancelPendingTransitions();
 	}
 	void entryGuard(GuardControl& c) { guard(c, 0); }
@@ -186,7 +197,7 @@ struct Node : Base {
 #endif
 		if (p.chance(p.k.pIssue)) {
 			int kk, dest;
-			if (pickReq(p, VH_KINDMASK, kk, dest)) { const int id = p.newId(); p.log->tag('q'); p.log->i(kk); p.log->i(dest); p.log->i(id); p.log->i(ID); p.log->nl(); issueReq(c, kk, dest, id); }
+			if (pickReq(p, VH_KINDMASK, kk, dest)) { const int id = p.newId(); const bool np = p.chance(p.k.pNoPayload); p.log->tag('q'); p.log->i(kk); p.log->i(dest); p.log->i(id); p.log->i(ID); p.log->i(np); p.log->nl(); issueReq(c, kk, dest, id, np); }
 		}
 #ifdef HFSM2_ENABLE_PLANS
 		if (p.k.pSucceed || p.k.pFail) {
